@@ -1,7 +1,7 @@
 (* Property C09 -- roots and integrals of observable-dependent functions propagate errors exactly.  Theorems only. *)
 From Coq Require Import ZArith QArith Reals List Bool.
 From Interval Require Import Interval.Interval Real.Xreal Real.Xreal_derive.
-From PV Require Import Base.QAux Base.RI Base.Expr Base.ExprFold Base.Dyadic Base.DyadicR Lin.Mat Fit.Implicit Fit.ImplicitSound.
+From PV Require Import Base.QAux Base.RI Base.Expr Base.ExprFold Base.Dyadic Base.DyadicR Lin.Mat Fit.Implicit Fit.ImplicitSound Fit.ImplicitTop Fit.TableSound.
 Import ListNotations.
 
 (* the symbolic derivatives df/dx, df/dd (roots) and d/d(p, a, b) of the antiderivative difference (integrals) are the real derivatives *)
@@ -43,6 +43,36 @@ Theorem differentiated_equation_decision_is_sound :
   (Rabs (rsum crs xrs) <= dR rt * (rasum crs xrs + dR scale))%R.
 Proof. exact form_decision_sound. Qed.
 
+(* Top level, for systems whose unknowns all have result observables: a positive verdict implicit_ok implies, for every equation, every
+   row of the fluctuation table and all real arguments inside that row's enclosures, the differentiated equation within tolerance --
+   with the REAL partial derivatives of the equation at the solution as coefficients *)
+Theorem positive_verdict_implies_the_differentiated_equations :
+  forall (c : icase) (i : nat) (xs : list (dy * dy)) (xrs : list R),
+  ic_nv c = ic_nu c -> implicit_ok c = true -> (0 <= dR (fst (dexact (ic_rt c))))%R ->
+  (i < length (ic_eqs c))%nat ->
+  In xs (dfluct_table (ic_uobs c) (ic_dobs c)) -> Forall2 enclx xs xrs ->
+  let l := (ic_uvals c ++ ic_dvals c)%list in
+  let eq := nth i (ic_eqs c) (EC 0%Q) in
+  let cols := seq 0 (ic_nu c + length (ic_dvals c)) in
+  let ds := map (dval l eq) cols in
+  (forall j, In j cols -> Xderive_pt (fun t => evalX (updX (qenvR l) j t) eq) (Xreal (qenvR l j)) (Xreal (dval l eq j)))
+  /\ exists scale, (Rabs (rsum ds xrs) <= dR (fst (dexact (ic_rt c))) * (rasum ds xrs + dR scale))%R.
+Proof. exact implicit_ok_sound. Qed.
+
+(* the rows of that table are, for every replica n and configuration c of the operands' union, the enclosures of the actual fluctuations
+   of the result observables and of the C01-weighted fluctuations of the data observables *)
+Theorem fluctuation_table_rows_enclose_the_weighted_fluctuations :
+  forall (u_obs d_obs : list Obs.Model.obs) (n : String.string) (c : Z),
+  Forall2 enclx (table_row u_obs d_obs n c)
+          (map (fun o => Q2R (Obs.Model.fluct0 o n c)) u_obs ++ map (fun o => Q2R (Obs.Derived.spec_weight d_obs o n * Obs.Model.fluct0 o n c)) d_obs).
+Proof. exact fluct_table_row_encloses. Qed.
+
+Theorem fluctuation_table_has_one_row_per_replica_and_configuration :
+  forall (u_obs d_obs : list Obs.Model.obs) xs,
+  In xs (dfluct_table u_obs d_obs) <->
+  exists n c, In n (Obs.Derived.sample_names (u_obs ++ d_obs)) /\ In c (Obs.Derived.union_cfgs (u_obs ++ d_obs) n) /\ xs = table_row u_obs d_obs n c.
+Proof. exact fluct_table_rows. Qed.
+
 (* Non-vacuity: x^3 - d at x = 2, d = 8: the equation holds, df/dx = 12, df/dd = -1 *)
 Example c09_example :
   let f := ESub (EMul (EMul (EV 0) (EV 0)) (EV 0)) (EV 1) in
@@ -55,3 +85,5 @@ Print Assumptions inverse_function_rule.
 Print Assumptions certified_folded_derivative.
 Print Assumptions interval_bounds_as_dyadics.
 Print Assumptions differentiated_equation_decision_is_sound.
+Print Assumptions positive_verdict_implies_the_differentiated_equations.
+Print Assumptions fluctuation_table_rows_enclose_the_weighted_fluctuations.
